@@ -145,6 +145,9 @@ class MathParser:
                 out = (utils.latex_error('missing end of maths', start,
                                 self.parser.latex, self.parser.parms) + out)
                 break
+            elif type(tok) is defs.VerbatimToken:
+                # NB: before all tests on tok.txt, verbatim text is no markup
+                out.append(defs.MathElemToken(tok.pos, tok.txt))
             elif tok.txt in toks_stop:
                 buf.next()
                 break
